@@ -131,7 +131,7 @@ func TestVP_C06_roundtrip(t *testing.T) {
 	c := kit.New(t, "C06", "rapid: structurally valid transactions inside the encoder limits (0..256 inputs/outputs/keys/references/signature maps, all input kinds, every output type, fields 0..65535 bytes, amounts to 2^520 and 65535 bytes, extra to 1 MiB, signature maps with sparse indexes or an aggregate with signer sets placed around the sparse/ordinary switch); Marshal -> Unmarshal -> structural equality (nil==empty) -> Marshal; non-trivial = encoding > 100 bytes with >=1 input and >=1 output; distinct by encoding hash")
 	c.Require("aggregate", "mask-sparse", "mask-ordinary", "mask@2n", "mask@2n+1", "sigmaps", "sigmap>=2", "unsigned", "signers-empty",
 		"inputs=256", "outputs=256", "references=256", "keys=256", "extra>=64KiB", "deposit", "mint", "withdrawal")
-	kit.SetChecks(kit.N(2000, 100000))
+	kit.SetChecks(kit.N(2000, 80000))
 	rapid.Check(t, func(t *rapid.T) {
 		tx, info := vpC06GenTx(t)
 		b := vpC06RoundTrip(t, tx)
